@@ -176,6 +176,26 @@ static int do_multi(const char *in, const char *outname) {
         is >> v;
         l = v;
       }
+      // every second case the duplicates are made from a DIFFERENT state of the originals (other densities, other
+      // neutral fractions); the state the packet is traced through is set afterwards and pushed to the duplicates with
+      // update_copy_properties(), as the simulations do before every iteration / after every hydro step
+      const bool stale = (cseed % 2 == 1);
+      auto fill = [&](const bool real) {
+        for (auto git = creator.begin(); git != creator.original_end(); ++git) {
+          for (auto cit = (*git).begin(); cit != (*git).end(); ++cit) {
+            const CoordinateVector<> m = cit.get_cell_midpoint();
+            const long ix = (long)std::floor((m.x() - a[0]) / (4. * u[0]));
+            const long iy = (long)std::floor((m.y() - a[1]) / (4. * u[1]));
+            const long iz = (long)std::floor((m.z() - a[2]) / (4. * u[2]));
+            const double k = kap[ix * G[1] * G[2] + iy * G[2] + iz];
+            set_cell(cit.get_ionization_variables(), real ? k : 2. * k + 1.);
+            if (!real)
+              cit.get_ionization_variables().set_ionic_fraction(ION_H_n, 0.25);
+          }
+        }
+      };
+      if (stale)
+        fill(false);
       if (cseed % 3 == 0) {
         // a second round of duplication with other levels (what the radiation hydrodynamics driver does when the sources
         // move): first a different level set, then the one the packet is traced through
@@ -186,6 +206,10 @@ static int do_multi(const char *in, const char *outname) {
         creator.update_copies(levels);
       } else {
         creator.create_copies(levels);
+      }
+      if (stale) {
+        fill(true);
+        creator.update_copy_properties();
       }
       copies = true;
     }
